@@ -55,6 +55,10 @@ func runCLIAs(c *fw.Ctx, uid uint32, args ...string) cliResult {
 		}
 	}
 	cmd := exec.CommandContext(ctx, bin, args...)
+	if pre, ok := c.Env.State["cli_wrapper"].([]string); ok && len(pre) > 0 {
+		// e.g. strace with delay injection on the page reads: slows the command down at its own suspension points
+		cmd = exec.CommandContext(ctx, pre[0], append(append([]string{}, pre[1:]...), append([]string{bin}, args...)...)...)
+	}
 	if extra, ok := c.Env.State["cli_env"].([]string); ok && len(extra) > 0 {
 		cmd.Env = append(os.Environ(), extra...) // e.g. TZ=Asia/Tokyo: output must not depend on the local zone
 	}
